@@ -236,7 +236,7 @@ def run(chk: Check) -> None:
         "(direct, flat, nested left/right), the bearer_token= shortcut alone and next to one plug-in, defaults x per-request "
         "header-name pattern {none, disjoint, equal, case variant}, a caller Authorization header {none, equal, case variant} x "
         "{defaults, per-request}, API-key header name and HeadersAuth name patterns {disjoint, equal, case variant}, caller params / "
-        "cookies / body present or not (quick: body present iff cookies absent). Every scenario is replayed on the real "
+        "cookies / body present or not (quick tier and three-plug-in sequences: body present iff cookies absent). Every scenario is replayed on the real "
         "HttpxTransport; non-trivial = at least one plug-in or the shortcut or defaults and per-request headers both present, "
         "distinct by scenario record"
     )
@@ -249,7 +249,9 @@ def run(chk: Check) -> None:
     ]
     design_dev: Counter = Counter()
     if thorough:
-        chunks = [(3, "short", False)] + [(3, k, False) for k in KINDS]
+        # all sequences of <= 2 plug-ins with the body dimension free, then the 210 x 3 three-plug-in composites
+        # partitioned by their first plug-in (body tied to the cookie dimension)
+        chunks = [(2, "any", False)] + [(3, k, True) for k in KINDS]
     else:
         chunks = [(2, "any", True)]
     side = _SubScratch(chk, "side")
